@@ -3,14 +3,14 @@ CONSTANTS
   Cfg <- CfgM
   Cat <- CatM
   InvAmt <- InvAmtM
-  MaxParts = 1
+  MaxParts = 3
   MaxPays = 1
-  MaxCrash = 1
-  MaxClock = 3
+  MaxCrash = 0
+  MaxClock = 0
   MaxW = 0
-  MaxR = 1
+  MaxR = 0
   HeightSet <- HeightsM
-  Direct = 0
+  Direct = 1
   Pinned <- PinnedM
   EmitRate = 1
 INIT SInit
@@ -18,4 +18,4 @@ NEXT SNext
 VIEW View
 CHECK_DEADLOCK FALSE
 INVARIANTS TypeOK
-PROPERTIES PC01 PC02 PC03 PC04 PC05 PC06 PC07 PC08 PC11 PC12 PC13 PC15 PC16
+PROPERTIES PC15 PC16
